@@ -628,21 +628,17 @@ VariableManager::extract_array_indices(const ASTNode *node) {
         return indices;
     }
 
-    // 現在のインデックスを評価
+    // the subscripts to the left are evaluated first (left-to-right order)
+    if (node->left && node->left->node_type == ASTNodeType::AST_ARRAY_REF) {
+        indices = extract_array_indices(node->left.get());
+    }
+
+    // then this subscript
     if (node->array_index) {
         int64_t index =
             interpreter_->expression_evaluator_->evaluate_expression(
                 node->array_index.get());
         indices.push_back(index);
-    }
-
-    // 左側に更なる配列アクセスがあるかチェック
-    if (node->left && node->left->node_type == ASTNodeType::AST_ARRAY_REF) {
-        std::vector<int64_t> left_indices =
-            extract_array_indices(node->left.get());
-        // 左側のインデックスを先頭に挿入
-        indices.insert(indices.begin(), left_indices.begin(),
-                       left_indices.end());
     }
 
     return indices;
